@@ -105,6 +105,13 @@ func c18Scenarios() []c18Scenario {
 					return m.XML, nil, err
 				}
 				rec := make([]string, len(fields))
+				// the custom attribute is looked up under the name it was GIVEN in this case (another substituted field may be its name)
+				customName := "role"
+				for i, f := range fields {
+					if c03FieldNames[f] == "custom-name" {
+						customName = vals[i]
+					}
+				}
 				for i, f := range fields {
 					switch c03FieldNames[f] {
 					case "username":
@@ -120,7 +127,7 @@ func c18Scenarios() []c18Scenario {
 					case "userid":
 						rec[i], _, _, _ = attrValueOf(r, "UserID")
 					case "custom-value":
-						rec[i], _, _, _ = attrValueOf(r, "role")
+						rec[i], _, _, _ = attrValueOf(r, customName)
 					case "custom-name":
 						if _, _, _, ok := attrValueOf(r, vals[i]); ok {
 							rec[i] = vals[i]
@@ -128,9 +135,9 @@ func c18Scenarios() []c18Scenario {
 							rec[i] = "(attribute with that name not found)"
 						}
 					case "custom-friendly":
-						_, rec[i], _, _ = attrValueOf(r, "role")
+						_, rec[i], _, _ = attrValueOf(r, customName)
 					case "custom-format":
-						_, _, rec[i], _ = attrValueOf(r, "role")
+						_, _, rec[i], _ = attrValueOf(r, customName)
 					case "acs":
 						rec[i] = strings.TrimPrefix(r.Destination, "https://sp-a.example/acs/")
 					case "request-id":
